@@ -42,13 +42,14 @@ const (
 
 // Config selects the granularity and the budgets of one execution.
 type Config struct {
-	Coarse     bool  // switch only at KYield/KEnter/KChoose and when the running thread blocks or exits
-	Cost       int   // CostPreempt or CostDelay
-	TimerRace  bool  // offer "fire the earliest timer now" as an alternative while threads are enabled
-	StepBudget int   // scheduling points per execution before it is declared runaway (0 = 200000)
-	SpinLimit  int   // identical (op,object,shadow-state) observations by one thread with nobody else stepping (0 = 64)
-	Horizon    int64 // virtual nanoseconds after which pending timers are no longer fired (0 = no limit)
-	FreeAtExit bool  // in CostDelay mode, make the choice after a thread exit/block free (cost 0 for every alternative)
+	Coarse        bool  // switch only at KYield/KEnter/KChoose and when the running thread blocks or exits
+	Cost          int   // CostPreempt or CostDelay
+	TimerRace     bool  // offer "fire the earliest timer now" as an alternative while threads are enabled
+	StepBudget    int   // scheduling points per execution before it is declared runaway (0 = 200000)
+	SpinLimit     int   // identical (op,object,shadow-state) observations by one thread with nobody else stepping (0 = 64)
+	Horizon       int64 // virtual nanoseconds after which pending timers are no longer fired (0 = no limit)
+	SwitchOnSpawn bool  // coarse mode: a go statement is a switch point too (the new thread may run before its creator continues)
+	FreeAtExit    bool  // in CostDelay mode, make the choice after a thread exit/block free (cost 0 for every alternative)
 }
 
 // PointInfo describes one recorded decision.
@@ -137,6 +138,7 @@ type exec struct {
 	taps          map[string][]func(args ...any)
 	live          sync.WaitGroup
 	resetFns      []func()
+	noTimers      bool
 	finisher      *thread
 	finisherParks bool
 	willPark      bool
@@ -311,6 +313,9 @@ func (e *exec) candidates() []*thread {
 }
 
 func (e *exec) nextTimer() *timer {
+	if e.noTimers {
+		return nil
+	}
 	var best *timer
 	for _, tm := range e.timers {
 		if tm.dead {
@@ -531,7 +536,7 @@ func Point(kind Kind, obj uintptr) {
 		return
 	}
 	e.step(kind, obj)
-	if e.cfg.Coarse && kind != KYield && kind != KEnter {
+	if e.cfg.Coarse && kind != KYield && kind != KEnter && !(kind == KSpawn && e.cfg.SwitchOnSpawn) {
 		return
 	}
 	e.reschedule(kind, "")
@@ -620,13 +625,10 @@ func QuiesceNoTimers() {
 	if e == nil || e.aborting {
 		return
 	}
-	old := e.cfg.Horizon
-	e.cfg.Horizon = e.now
-	if e.cfg.Horizon == 0 {
-		e.cfg.Horizon = -1
-	}
+	old := e.noTimers
+	e.noTimers = true
 	Quiesce()
-	e.cfg.Horizon = old
+	e.noTimers = old
 }
 
 // SetHorizon changes the virtual-time horizon (absolute virtual ns; 0 = unlimited).
